@@ -2,69 +2,91 @@
 (* cpr.Seq: the per-day processing pipeline of Journal.Process (property C19;   *)
 (* used by C14, C06).  Workers: 0 = source, 1..NStages = processor stages,       *)
 (* NStages+1 = sink.  Channel i connects worker i to worker i+1 and is           *)
-(* unbuffered (a rendezvous: Handoff).  The pool cancels the context on the      *)
-(* first error, after recording it (conc ContextPool: addErr, then cancel).      *)
-(* One action per critical step of cpr.Pop / f / cpr.Push.                       *)
+(* unbuffered (a rendezvous: Handoff).  One action per critical step of          *)
+(* cpr.Pop / f / cpr.Push, and the return of a worker is three steps, as in the  *)
+(* code: the deferred close of its out channel (cpr.Produce), then - in the      *)
+(* conc ContextPool wrapper - addErr, then cancel.  CancelFirst = TRUE is the    *)
+(* rejected design (cancel before the error is recorded), kept to show that      *)
+(* ErrorIsReal is not vacuous.                                                   *)
 EXTENDS Integers, Sequences, FiniteSets
-CONSTANTS NStages, NItems, MaxFail
-VARIABLES pc, hold, cancelled, firstErr, closed, sinkRes, out, failSet, processed, failedRun
-vars == <<pc, hold, cancelled, firstErr, closed, sinkRes, out, failSet, processed, failedRun>>
+CONSTANTS NStages, NItems, MaxFail, CancelFirst
+VARIABLES pc, hold, ret, cancelled, firstErr, closed, sinkRes, out, failSet, processed, failedRun
+vars == <<pc, hold, ret, cancelled, firstErr, closed, sinkRes, out, failSet, processed, failedRun>>
 
 Workers == 0..(NStages + 1)
 Stages == 1..NStages
 Sink == NStages + 1
 NoErr == [k |-> "none", w |-> -1]
 
-Init == /\ pc = [w \in Workers |-> IF w = 0 THEN "push" ELSE "pop"]
+InitWith(fs) ==
+        /\ pc = [w \in Workers |-> IF w = 0 THEN "push" ELSE "pop"]
         /\ hold = [w \in Workers |-> IF w = 0 /\ NItems > 0 THEN 1 ELSE 0]
+        /\ ret = [w \in Workers |-> "none"]
         /\ cancelled = FALSE /\ firstErr = NoErr
         /\ closed = [c \in 0..NStages |-> FALSE]
         /\ sinkRes = << >> /\ out = << >>
-        /\ failSet \in {fs \in SUBSET (Stages \X (1..NItems)) : Cardinality(fs) <= MaxFail}
+        /\ failSet = fs
         /\ processed = [s \in Stages |-> << >>]
         /\ failedRun = {}
+Init == \E fs \in {x \in SUBSET (Stages \X (1..NItems)) : Cardinality(x) <= MaxFail} : InitWith(fs)
 
-\* a worker returns: record the error (first one wins), cancel on error, close the out channel
-Exit(w, kind) ==
-  /\ pc' = [pc EXCEPT ![w] = "done"]
+\* ---- a worker function returns kind (nil / real / ctx): close, record, cancel follow as separate steps
+Return(w, kind) ==
+  /\ pc' = [pc EXCEPT ![w] = "closing"]
+  /\ ret' = [ret EXCEPT ![w] = kind]
   /\ hold' = [hold EXCEPT ![w] = 0]
-  /\ firstErr' = IF kind # "nil" /\ firstErr.k = "none" THEN [k |-> kind, w |-> w] ELSE firstErr
-  /\ cancelled' = (cancelled \/ kind # "nil")
+\* defer close(ch) in cpr.Produce / cpr.FanIn
+CloseOut(w) ==
+  /\ pc[w] = "closing"
   /\ closed' = IF w <= NStages THEN [closed EXCEPT ![w] = TRUE] ELSE closed
+  /\ pc' = [pc EXCEPT ![w] = IF ret[w] = "nil" THEN "done" ELSE IF CancelFirst THEN "cancelling" ELSE "recording"]
+  /\ UNCHANGED <<hold, ret, cancelled, firstErr, sinkRes, out, failSet, processed, failedRun>>
+\* errorPool.addErr: the first recorded error wins (WithFirstError)
+Record(w) ==
+  /\ pc[w] = "recording"
+  /\ firstErr' = IF firstErr.k = "none" THEN [k |-> ret[w], w |-> w] ELSE firstErr
+  /\ pc' = [pc EXCEPT ![w] = IF CancelFirst THEN "done" ELSE "cancelling"]
+  /\ UNCHANGED <<hold, ret, cancelled, closed, sinkRes, out, failSet, processed, failedRun>>
+\* p.cancel()
+Cancel(w) ==
+  /\ pc[w] = "cancelling"
+  /\ cancelled' = TRUE
+  /\ pc' = [pc EXCEPT ![w] = IF CancelFirst THEN "recording" ELSE "done"]
+  /\ UNCHANGED <<hold, ret, firstErr, closed, sinkRes, out, failSet, processed, failedRun>>
 
 \* ---- source: Push each item, then return nil
 SourceDone == /\ pc[0] = "push" /\ hold[0] = 0
-              /\ Exit(0, "nil") /\ UNCHANGED <<sinkRes, out, failSet, processed, failedRun>>
+              /\ Return(0, "nil") /\ UNCHANGED <<cancelled, firstErr, closed, sinkRes, out, failSet, processed, failedRun>>
 
 \* ---- rendezvous on channel c: sender c at push, receiver c+1 at pop
 Handoff(c) ==
   /\ pc[c] = "push" /\ hold[c] # 0 /\ pc[c + 1] = "pop"
   /\ hold' = [hold EXCEPT ![c + 1] = hold[c], ![c] = IF c = 0 /\ hold[c] < NItems THEN hold[c] + 1 ELSE 0]
   /\ pc' = [pc EXCEPT ![c + 1] = "got", ![c] = IF c = 0 THEN "push" ELSE "pop"]
-  /\ UNCHANGED <<cancelled, firstErr, closed, sinkRes, out, failSet, processed, failedRun>>
+  /\ UNCHANGED <<ret, cancelled, firstErr, closed, sinkRes, out, failSet, processed, failedRun>>
 
 \* cpr.Pop returns (d, ok, ctx.Err()): a received value is dropped when the context is already cancelled
 GotCheck(w) ==
   /\ pc[w] = "got"
   /\ IF cancelled
-     THEN Exit(w, "ctx") /\ UNCHANGED <<sinkRes, out, failSet, processed, failedRun>>
+     THEN Return(w, "ctx") /\ UNCHANGED <<cancelled, firstErr, closed, sinkRes, out, failSet, processed, failedRun>>
      ELSE /\ pc' = [pc EXCEPT ![w] = "work"]
-          /\ UNCHANGED <<hold, cancelled, firstErr, closed, sinkRes, out, failSet, processed, failedRun>>
+          /\ UNCHANGED <<hold, ret, cancelled, firstErr, closed, sinkRes, out, failSet, processed, failedRun>>
 
-\* the in channel is closed (its sender returned) and nothing is offered
+\* the in channel is closed (its sender ran its deferred close) and nothing is offered
 RecvClosed(w) ==
-  /\ w >= 1 /\ pc[w] = "pop" /\ closed[w - 1] /\ pc[w - 1] = "done"
+  /\ w >= 1 /\ pc[w] = "pop" /\ closed[w - 1]
   /\ IF w = Sink
      THEN IF cancelled
-          THEN Exit(w, "ctx") /\ UNCHANGED <<sinkRes, out, failSet, processed, failedRun>>
+          THEN Return(w, "ctx") /\ UNCHANGED <<cancelled, firstErr, closed, sinkRes, out, failSet, processed, failedRun>>
           ELSE /\ pc' = [pc EXCEPT ![w] = "pushres"]
-               /\ UNCHANGED <<hold, cancelled, firstErr, closed, sinkRes, out, failSet, processed, failedRun>>
-     ELSE Exit(w, IF cancelled THEN "ctx" ELSE "nil") /\ UNCHANGED <<sinkRes, out, failSet, processed, failedRun>>
+               /\ UNCHANGED <<hold, ret, cancelled, firstErr, closed, sinkRes, out, failSet, processed, failedRun>>
+     ELSE Return(w, IF cancelled THEN "ctx" ELSE "nil") /\ UNCHANGED <<cancelled, firstErr, closed, sinkRes, out, failSet, processed, failedRun>>
 
 \* select on ctx.Done() while blocked in Pop or Push
 CancelSeen(w) ==
   /\ cancelled /\ pc[w] \in {"pop", "push", "pushres"}
-  /\ Exit(w, "ctx") /\ UNCHANGED <<sinkRes, out, failSet, processed, failedRun>>
+  /\ Return(w, "ctx") /\ UNCHANGED <<cancelled, firstErr, closed, sinkRes, out, failSet, processed, failedRun>>
 
 \* f(day): the processor callback
 Work(s) ==
@@ -72,39 +94,43 @@ Work(s) ==
   /\ processed' = [processed EXCEPT ![s] = Append(@, hold[s])]
   /\ IF <<s, hold[s]>> \in failSet
      THEN /\ failedRun' = failedRun \cup {<<s, hold[s]>>}
-          /\ Exit(s, "real") /\ UNCHANGED <<sinkRes, out, failSet>>
+          /\ Return(s, "real") /\ UNCHANGED <<cancelled, firstErr, closed, sinkRes, out, failSet>>
      ELSE /\ pc' = [pc EXCEPT ![s] = "push"]
-          /\ UNCHANGED <<hold, cancelled, firstErr, closed, sinkRes, out, failSet, failedRun>>
+          /\ UNCHANGED <<hold, ret, cancelled, firstErr, closed, sinkRes, out, failSet, failedRun>>
 
 SinkWork == /\ pc[Sink] = "work"
             /\ sinkRes' = Append(sinkRes, hold[Sink])
             /\ pc' = [pc EXCEPT ![Sink] = "pop"] /\ hold' = [hold EXCEPT ![Sink] = 0]
-            /\ UNCHANGED <<cancelled, firstErr, closed, out, failSet, processed, failedRun>>
+            /\ UNCHANGED <<ret, cancelled, firstErr, closed, out, failSet, processed, failedRun>>
 \* the result channel has capacity 1: the send never blocks
 SinkPushRes == /\ pc[Sink] = "pushres" /\ out' = << sinkRes >>
-               /\ Exit(Sink, "nil") /\ UNCHANGED <<sinkRes, failSet, processed, failedRun>>
+               /\ Return(Sink, "nil") /\ UNCHANGED <<cancelled, firstErr, closed, sinkRes, failSet, processed, failedRun>>
 
 AllDone == \A w \in Workers : pc[w] = "done"
 Finished == AllDone /\ UNCHANGED vars
 
-Next == \/ SourceDone \/ SinkWork \/ SinkPushRes \/ Finished
-        \/ \E c \in 0..NStages : Handoff(c)
-        \/ \E w \in Workers : GotCheck(w) \/ RecvClosed(w) \/ CancelSeen(w)
-        \/ \E s \in Stages : Work(s)
+\* everything but the processor callbacks (the steps the StageDay hook does not log)
+Silent == \/ SourceDone \/ SinkWork \/ SinkPushRes
+          \/ \E c \in 0..NStages : Handoff(c)
+          \/ \E w \in Workers : GotCheck(w) \/ RecvClosed(w) \/ CancelSeen(w) \/ CloseOut(w) \/ Record(w) \/ Cancel(w)
+Next == Silent \/ Finished \/ \E s \in Stages : Work(s)
 Spec == Init /\ [][Next]_vars /\ WF_vars(Next)
 
 \* ---------------------------------------------------------------- properties
 Termination == <>AllDone                               \* no deadlock, no hang, all stages stop
-RECURSIVE IsPrefixOfNat(_)
 IsPrefixOfNat(sq) == \A n \in 1..Len(sq) : sq[n] = n
 InOrder == \A s \in Stages : IsPrefixOfNat(processed[s])          \* each stage sees the days in order, once
 StageOrder == \A s \in 2..NStages : Len(processed[s]) <= Len(processed[s - 1])
 SingleOwner == \A a, b \in 1..Sink : (a # b /\ hold[a] # 0) => hold[a] # hold[b]
 \* unbuffered channels: stage s may be at most one day ahead of what stage s+1 has accepted
 BoundedLead == \A s \in 1..(NStages - 1) : Len(processed[s]) <= Len(processed[s + 1]) + 2
+\* p.Wait() returns firstErr; the result is read only when it is nil
+Result == IF firstErr.k = "none" THEN out ELSE << >>
 NoLossNoDup == (AllDone /\ firstErr.k = "none") => (sinkRes = [n \in 1..NItems |-> n] /\ out = << sinkRes >>)
 ErrorIsReal == /\ firstErr.k # "ctx"                                   \* never "context canceled"
-               /\ (failedRun # {}) => firstErr.k = "real"              \* never success after a failing stage
+               /\ (AllDone /\ failedRun # {}) => firstErr.k = "real"   \* never success after a failing stage
                /\ firstErr.k = "real" => \E x \in failedRun : x[1] = firstErr.w
 SuccessOnlyIfNoFailure == (AllDone /\ firstErr.k = "none") => failedRun = {}
+\* a stage never starts a new day once the pool has been cancelled and it has noticed
+NoWorkAfterExit == \A s \in Stages : pc[s] \in {"closing", "recording", "cancelling", "done"} => hold[s] = 0
 =============================================================================
